@@ -242,6 +242,13 @@ def is_plan_rule_modelled(lhs, rhs, conds):
     if isinstance(l, str):
         return False
     ops = {o for o, _ in ops_of(l, set()) | ops_of(r, set())}
+    if "proj" in ops:
+        # a projection only at the root of both sides, with the same expression list (its output columns are positional in the model)
+        def no_proj(x):
+            return isinstance(x, str) or (x[0] != "proj" and all(no_proj(a) for a in x[1]))
+        if isinstance(r, str) or l[0] != "proj" or r[0] != "proj" or l[1][0] != r[1][0] or not all(no_proj(a) for a in l[1] + r[1]):
+            return False
+        ops = ops - {"proj"}
     if not ops <= PLAN_OPS or not (ops - {"and", "list"}):
         return False
     for a in atoms_of(l, set()) | atoms_of(r, set()):
